@@ -1,4 +1,5 @@
 import SdJwt.Lemmas.KB
+import SdJwt.Lemmas.EndToEnd
 /-!
 # C05 — key binding enforced: bound SD-JWTs need a valid KB-JWT over this presentation
 
@@ -14,7 +15,7 @@ and both policies. `C05_verifyKb_iff` opens the key-binding check. `C05_tamper` 
 change of the disclosure list changes the string that is hashed. Signature and audience/algorithm
 checks of the KB-JWT are the JWT library's (`kbDecode`), covered as in C04 / C11.
 -/
-open Impl
+open Impl Spec Assoc
 
 /-- the key-binding check accepts iff the bound key is an RSA JWK with string `n`, `e`, the JWT
 library accepts the KB-JWT under that key and the verifier's policy, and it is typed `kb+jwt` -/
@@ -172,3 +173,39 @@ theorem C05_tamper (jwt : String) (l1 l2 : List String)
 /-- non-vacuity of `C05_tamper`: reordering two disclosures -/
 example : assemble "j" ["a", "b"] ≠ assemble "j" ["b", "a"] :=
   C05_tamper "j" ["a", "b"] ["b", "a"] (by decide) (by decide) (by decide)
+
+/-- **C05, acceptance end to end in the model (bound token).**  The issuer binds the token to
+the key `X` (`require_key_binding`); the holder presents ANY selection `kept` of the disclosures
+followed by a key-binding JWT `kb` that the JWT library accepts under `X` and the verifier's
+key-binding policy (`kbDecode`), typed `kb+jwt`, whose `sd_hash` is the hash — under the declared
+`sha-256` — of exactly the presentation up to and including its last `~`.  Then the verifier
+accepts and returns the header and the issued claims projected on the selection, plus `cnf`.
+(The rejecting side, for every other presentation, is `C05_accept_iff`.) -/
+theorem C05_bound_accepts (rt : Rt) (mk : Nat → Option String → J → String)
+    (paths : List String) (addr : List (List String × String)) (ms : MMems) (Tn : MJ)
+    (ds : List SDisc) (decoys : Option (List String)) (X : MJ) (jwt : String) (header : J)
+    (kept : List String) (kb : String) (kh kc : J)
+    (wf : (MJ.obj ms none).WF) (hplain : (MJ.obj ms none).digests = [])
+    (hk1 : "_sd_alg" ∉ ms.keys) (hk2 : "cnf" ∉ ms.keys)
+    (hp : ParsedAll paths addr) (h : markAll mk 0 addr (.obj ms none) = some (Tn, ds)) (hne : ds ≠ [])
+    (hdec : ∀ l, decoys = some l → l.Nodup ∧ (∀ g ∈ l, g ∉ Tn.digests))
+    (hX : X.WF ∧ X.digests = [])
+    (hsig : ∀ payload dsrc,
+      encode (MJ.obj ms none).payload paths mk decoys (some X.payload) = .ok (payload, dsrc) →
+      rt.jwtDecode jwt = .ok (header, payload))
+    (hstr : ∀ s ∈ kept, ∃ e ∈ ds,
+      fromBase64 (rt.env "sha-256") s = .ok ⟨s, e.digest, e.key, e.value⟩)
+    (hnd : (kept.map (rt.hash "sha-256")).Nodup)
+    (hj : '~' ∉ jwt.toList) (hs : ∀ s ∈ kept, '~' ∉ s.toList)
+    (hkb : '~' ∉ kb.toList) (hkbne : kb.toList ≠ [])
+    (hkty : (jidx X.payload "kty").asStr = some "RSA")
+    (he : (jidx X.payload "e").asStr.isSome = true) (hn : (jidx X.payload "n").asStr.isSome = true)
+    (hkbdec : rt.kbDecode kb X.payload = .ok (kh, kc))
+    (htyp : (jidx kh "typ").asStr = some "kb+jwt")
+    (hhash : (jidx kc "sd_hash").asStr = some (rt.hash "sha-256" (assemble jwt kept))) :
+    ∃ msn sdn, Tn = .obj msn sdn ∧
+      Verifier.verify rt (assemble jwt kept ++ kb) true =
+        .ok (header, .obj (ains "cnf" (X.project (fun g => kept.any fun s => decide (rt.hash "sha-256" s = g)))
+          (msn.project (fun g => kept.any fun s => decide (rt.hash "sha-256" s = g))))) :=
+  verifier_verify_issued_bound rt mk paths addr ms Tn ds decoys X jwt header kept kb kh kc wf hplain hk1 hk2
+    hp h hne hdec hX hsig hstr hnd hj hs hkb hkbne hkty he hn hkbdec htyp hhash
